@@ -151,6 +151,22 @@ def lookalikes():
     return out
 
 
+def same_leaf_pairs():
+    """(C1<L>, C2<L>): two different built-in constructors over the same leaf in one registry, every ordered pair —
+    distinct types (arrays of different length, array vs sequence, set vs sequence, ...) must stay distinct"""
+    out = []
+    for leaf in [t for t in leaves() if t.src in ('u8', 'u16')]:
+        cs = [c for c in constructors(leaf, False) if not c.src.startswith(('Rc<', 'Arc<', "&'static", 'Result<bool', 'BTreeMap<u16', '(%s, bool)' % leaf.src))]
+        extra = T('[%s; 3]' % leaf.src, [('[%s, %s, %s]' % (leaf.vals[0][0], leaf.vals[-1][0], leaf.vals[0][0]), 'A[%s,%s,%s]' % (leaf.vals[0][1], leaf.vals[-1][1], leaf.vals[0][1]), 0)], depth=1)
+        cs.append(extra)
+        for a in cs:
+            for b in cs:
+                if a is b: continue
+                va, vb = a.vals[-1], b.vals[-1]
+                out.append(T('(%s, %s)' % (a.src, b.src), [('(%s, %s)' % (va[0], vb[0]), 'T[%s]' % ','.join(x for x in (None if a.phantom else va[1], None if b.phantom else vb[1]) if x is not None), 0)], depth=2))
+    return out
+
+
 def shape_only():
     """types without a codec encoding: only the documented shape is checked"""
     out = [('char', 'TypeDef::Primitive(scale_info::TypeDefPrimitive::Char)', None)]
@@ -163,7 +179,7 @@ def shape_only():
 def types(tier):
     thorough = tier == 'thorough'
     L = leaves()
-    out = list(L) + unsized_tops() + flat_tuples() + lookalikes()
+    out = list(L) + unsized_tops() + flat_tuples() + lookalikes() + same_leaf_pairs()
     d1 = []
     for t in L:
         d1 += constructors(t, True)
@@ -251,6 +267,6 @@ def run(tier):
     cov = {'evaluations': counts.get('C04', 0), 'types': len(metas), 'types_by_nesting_depth': {str(k): sum(1 for m in metas if m['depth'] == k) for k in range(4)}, 'lookalike_tuples': len(lookalikes()),
            'distinct_nontrivial': len({m['src'] for m in metas if m['depth'] >= 1}), 'values_checked': sum(m['values'] for m in metas), 'shape_only_types': sum(1 for m in metas if m['kind'] == 'shape'),
            'exhaustive': True,
-           'rule': 'every built-in leaf (12 integers, bool, String, unit, 10 NonZero*, Duration, 8 BitVec<store,order>), every unary/binary constructor (Vec VecDeque Option Result both ways [_;0] [_;2] (_,) (_,bool) PhantomData Compact Range RangeInclusive BTreeSet BinaryHeap BTreeMap both ways Cow Box Rc Arc & Box<[_]>) applied to every leaf, applied twice over 4 leaves (all leaves thorough, thrice over u8 thorough), flat tuples of arity 2..18 with PhantomData members, tuples (C<W<L>>, C<L>, u32) of two different types with identical descriptions in both orders, unsized targets behind pointers; values built compositionally from boundary leaf domains; non-trivial = distinct type expressions of nesting depth >= 1; char and 19/20-tuples: documented shape only',
+           'rule': 'every built-in leaf (12 integers, bool, String, unit, 10 NonZero*, Duration, 8 BitVec<store,order>), every unary/binary constructor (Vec VecDeque Option Result both ways [_;0] [_;2] (_,) (_,bool) PhantomData Compact Range RangeInclusive BTreeSet BinaryHeap BTreeMap both ways Cow Box Rc Arc & Box<[_]>) applied to every leaf, applied twice over 4 leaves (all leaves thorough, thrice over u8 thorough), flat tuples of arity 2..18 with PhantomData members, tuples (C<W<L>>, C<L>, u32) of two different types with identical descriptions in both orders, every ordered pair (C1<L>, C2<L>) of different constructors over the same leaf (u8, u16), unsized targets behind pointers; values built compositionally from boundary leaf domains; non-trivial = distinct type expressions of nesting depth >= 1; char and 19/20-tuples: documented shape only',
            'samples': [{'type': m['src'], 'values': m['values']} for m in metas[::max(1, len(metas) // 6)][:7]]}
     return progs.report('C04', tier, 'exploration', cov, violations, ['expected trees come from the documented shape of each constructor, written in the generator; relative to rustc and parity-scale-codec 3.7.5'], t0)
